@@ -193,6 +193,8 @@ func checkC14(c *Ctx) {
 	checkMirrorLoops(c, r)
 	checkBalancedPredicates(c, r)
 	checkArgumentRoles(c, "C14.R0.argument-roles", r.Pkg, "diff", 3)
+	checkTwinFunctions(c, r)
+	checkMirrorBranches(c, r)
 	// the names the JSON report gives to codes: a deleted-X must not be called added-X
 	c.Rule("C14.R5.toStringSpecChangeCode", "the JSON name of each change code is its own (total, injective, no row carrying another constant's identifier): a deleted-X is never reported as added-X", 150)
 	c.Rule("C14.R5.toLongStringSpecChangeCode", "the text of each change code is its own (total, injective)", 150)
@@ -203,6 +205,7 @@ func checkC14(c *Ctx) {
 	c.Rule("C14.R1.orientation", "directed code ⇒ directed trigger of matching orientation; no opposite-orientation trigger; direction-less code ⇒ no one-sided selection", 55)
 	c.Rule("C14.R1.sense", "Widened/Narrowed agree with the attribute's sense (upper bound ↑ = widened, lower bound ↑ = narrowed, exclusive removed = widened, string→non-string = narrowed, number wideness ↑ = widened)", 12)
 	sites := bindSites(c, r, "C14.R1.orientation")
+	checkSymmetricGuards(c, r, sites)
 	type famKey struct{ fn, fam, code string }
 	plusFns := map[string][]boundSite{}
 	for _, bs := range sites {
@@ -908,4 +911,238 @@ func lookupGuards(r *goan.Rel, s *goan.Site) []string {
 	}
 	sort.Strings(out)
 	return out
+}
+
+
+// sidedText renders an expression with the identifiers of spec 1 and spec 2 replaced by ① and ②
+// (swap=true exchanges them); unsided names whose spelling ends in 1/2 lose the digit as well.
+func sidedText(r *goan.Rel, e ast.Node, swap bool) string { return sidedTextOpt(r, e, swap, false) }
+
+func sidedTextOpt(r *goan.Rel, e ast.Node, swap, keepStrings bool) string {
+	m1, m2 := "①", "②"
+	if swap {
+		m1, m2 = m2, m1
+	}
+	var b strings.Builder
+	ast.Inspect(e, func(n ast.Node) bool {
+		switch x := n.(type) {
+		case *ast.Ident:
+			switch r.SideOf(x) {
+			case goan.S1:
+				b.WriteString(m1 + " ")
+			case goan.S2:
+				b.WriteString(m2 + " ")
+			default:
+				nm := x.Name
+				if len(nm) > 1 && (strings.HasSuffix(nm, "1") || strings.HasSuffix(nm, "2")) {
+					d := nm[len(nm)-1]
+					if (d == '1') != swap {
+						nm = nm[:len(nm)-1] + "‹a›"
+					} else {
+						nm = nm[:len(nm)-1] + "‹b›"
+					}
+				}
+				b.WriteString(nm + " ")
+			}
+		case *ast.BasicLit:
+			if x.Kind == token.STRING && !keepStrings {
+				b.WriteString("\"…\" ")
+			} else {
+				b.WriteString(x.Value + " ")
+			}
+		case *ast.BinaryExpr:
+			b.WriteString(x.Op.String() + " ")
+		case *ast.UnaryExpr:
+			b.WriteString(x.Op.String() + " ")
+		case *ast.AssignStmt:
+			b.WriteString(x.Tok.String() + " ")
+		case *ast.CallExpr:
+			b.WriteString("call ")
+		case *ast.ReturnStmt:
+			b.WriteString("return ")
+		case *ast.IfStmt:
+			b.WriteString("if ")
+		}
+		return true
+	})
+	return b.String()
+}
+
+// checkTwinFunctions: two functions whose names differ only by a trailing 1 / 2 are the same
+// function for the two specs: their bodies are equal once the sides are exchanged.
+func checkTwinFunctions(c *Ctx, r *goan.Rel) {
+	rule := "C14.R2.twin-functions"
+	c.Rule(rule, "functions named …1 / …2 have the same body up to the exchange of the two specs", 1)
+	pk := r.Pkg
+	byName := map[string]*ast.FuncDecl{}
+	for _, fd := range load.AllFuncs(pk) {
+		byName[load.FuncName(fd)] = fd
+	}
+	n := 0
+	var names []string
+	for nm := range byName {
+		names = append(names, nm)
+	}
+	sort.Strings(names)
+	for _, nm := range names {
+		if !strings.HasSuffix(nm, "1") {
+			continue
+		}
+		twin := byName[nm[:len(nm)-1]+"2"]
+		if twin == nil {
+			continue
+		}
+		n++
+		a := sidedText(r, byName[nm].Body, false)
+		b := sidedText(r, twin.Body, true)
+		c.Check(a == b, rule, "diff."+nm+" ↔ "+load.FuncName(twin), c.posOf(pk, byName[nm].Pos()), "same body with the specs exchanged",
+			"the two functions do different things for the old and for the new spec (beyond reading their own side): whatever one of them records or skips makes the comparison depend on the direction")
+	}
+	if n == 0 {
+		c.Unk(rule, "diff › functions named …1/…2", "", "none found (anchor: getRefSchemaFromSpec1/2)")
+	}
+}
+
+// checkMirrorBranches: two `if` statements of one block whose conditions are each other's mirror
+// (a1 && !a2 / !a1 && a2) must do the same things: same assignments, same calls — only the code
+// they report may differ.
+func checkMirrorBranches(c *Ctx, r *goan.Rel) {
+	rule := "C14.R2.mirror-branches"
+	c.Rule(rule, "sibling branches whose conditions mirror each other have bodies of the same shape (assignments and calls)", 3)
+	pk := r.Pkg
+	shape := func(b *ast.BlockStmt) string {
+		var out []string
+		ast.Inspect(b, func(n ast.Node) bool {
+			switch x := n.(type) {
+			case *ast.AssignStmt:
+				for _, l := range x.Lhs {
+					out = append(out, "set "+goan.LastSel(l))
+				}
+			case *ast.CallExpr:
+				out = append(out, "call "+goan.LastSel(x.Fun))
+			case *ast.ReturnStmt:
+				out = append(out, "return")
+			}
+			return true
+		})
+		sort.Strings(out)
+		return strings.Join(out, "; ")
+	}
+	n := 0
+	for _, fd := range load.AllFuncs(pk) {
+		fd := fd
+		ast.Inspect(fd.Body, func(nd ast.Node) bool {
+			blk, ok := nd.(*ast.BlockStmt)
+			if !ok {
+				return true
+			}
+			var ifs []*ast.IfStmt
+			for _, st := range blk.List {
+				if x, ok := st.(*ast.IfStmt); ok && x.Else == nil && x.Init == nil {
+					ifs = append(ifs, x)
+				}
+			}
+			// conjunctions are compared up to the order of their operands
+			conj := func(e ast.Expr, swap bool) string {
+				var parts []string
+				var split func(e ast.Expr)
+				split = func(e ast.Expr) {
+					if be, ok := ast.Unparen(e).(*ast.BinaryExpr); ok && be.Op == token.LAND {
+						split(be.X)
+						split(be.Y)
+						return
+					}
+					parts = append(parts, sidedText(r, e, swap))
+				}
+				split(e)
+				sort.Strings(parts)
+				return strings.Join(parts, "&& ")
+			}
+			for i := 0; i < len(ifs); i++ {
+				ci := conj(ifs[i].Cond, false)
+				if !strings.Contains(ci, "①") || !strings.Contains(ci, "②") {
+					continue
+				}
+				for j := i + 1; j < len(ifs); j++ {
+					if conj(ifs[j].Cond, true) != ci || conj(ifs[j].Cond, false) == ci {
+						continue
+					}
+					n++
+					si, sj := shape(ifs[i].Body), shape(ifs[j].Body)
+					c.Check(si == sj, rule, fmt.Sprintf("diff.%s › branches under %s and its mirror", load.FuncName(fd), goan.ExprString(ifs[i].Cond)), c.posOf(pk, ifs[i].Pos()), "same assignments and calls",
+						fmt.Sprintf("the branch under `%s` does [%s], its mirror under `%s` does [%s]: what follows (a flag that suppresses further comparisons, a recorded fact) depends on the direction of the change", goan.ExprString(ifs[i].Cond), si, goan.ExprString(ifs[j].Cond), sj))
+				}
+			}
+			return true
+		})
+	}
+	if n < 3 {
+		c.Unk(rule, "diff › mirrored sibling branches", "", fmt.Sprintf("%d pairs found", n))
+	}
+}
+
+// checkSymmetricGuards: a direction-less code (Changed…) must be reported for A→B exactly when it is
+// reported for B→A: whatever is tested on one spec's value in the conditions around its emission must
+// be tested on the other's too.
+func checkSymmetricGuards(c *Ctx, r *goan.Rel, sites []boundSite) {
+	rule := "C14.R1.symmetric-guards"
+	c.Rule(rule, "the one-sided tests in the conditions around the emission of a direction-less code are the same for both specs", 10)
+	pk := r.Pkg
+	info := r.Info()
+	for _, bs := range sites {
+		if codeClass(bs.Code) != "undirected" || bs.Via == "assign" {
+			continue // an initial value that later branches overwrite is not an emission
+		}
+		// one-sided atomic tests anywhere in the guards (locals resolved)
+		cnt := map[string][2]int{}
+		for _, g := range bs.Guards {
+			if g.NonEmpty {
+				continue // `range X` says X is not empty: a fact of the iteration, not a test
+			}
+			e := goan.ResolveLocal(info, bs.Fn.Body, g.E)
+			var walk func(e ast.Expr)
+			walk = func(e ast.Expr) {
+				switch x := ast.Unparen(e).(type) {
+				case *ast.BinaryExpr:
+					if x.Op == token.LAND || x.Op == token.LOR {
+						walk(x.X)
+						walk(x.Y)
+						return
+					}
+				case *ast.UnaryExpr:
+					if x.Op == token.NOT {
+						walk(x.X)
+						return
+					}
+				case *ast.Ident:
+					if d := goan.ResolveLocal(info, bs.Fn.Body, x); d != ast.Expr(x) {
+						walk(d)
+						return
+					}
+				}
+				t := sidedTextOpt(r, e, false, true)
+				has1, has2 := strings.Contains(t, "①"), strings.Contains(t, "②")
+				if has1 == has2 {
+					return // two-sided or unsided test
+				}
+				key := strings.NewReplacer("①", "§", "②", "§").Replace(t)
+				v := cnt[key]
+				if has1 {
+					v[0]++
+				} else {
+					v[1]++
+				}
+				cnt[key] = v
+			}
+			walk(e)
+		}
+		bad := ""
+		for k, v := range cnt {
+			if v[0] != v[1] {
+				bad = fmt.Sprintf("`%s` is tested %d× on the old spec and %d× on the new one", strings.TrimSpace(k), v[0], v[1])
+			}
+		}
+		c.Check(bad == "", rule, siteKey(bs.Site, bs.Code)+" › symmetric conditions", c.posOf(pk, bs.Pos), "every one-sided test has its twin",
+			bs.Code+" has no direction, but "+bad+" in the conditions around its emission: it is reported in one direction of the comparison and not in the other")
+	}
 }
